@@ -11,7 +11,8 @@ Static objects: `c2m -S` must emit at least sizeof bytes for uninitialised file-
 By-value: for the distinct (classes, size, leaf signature) shapes found by TLC, caller/callee pairs where one side is
 compiled by c2m and the other by gcc (shared library given to c2m with -L/-l; gcc -> c2m through callbacks), both
 directions, as arguments (first, mixed with scalars, after the integer / SSE registers are exhausted, all registers
-used, four aggregates) and as return values, plus c2m -> c2m and gcc -> gcc controls.
+used, four aggregates, and six two-aggregate calls with a partly used register file where the aggregate that does not
+fit goes to memory and the next one must still get the free register) and as return values, plus c2m -> c2m and gcc -> gcc controls.
 Classification: the spec's classes are compared with where gcc really takes a lone aggregate argument from
 (harness/c08_probe.S loads every argument register and stack slot with its own byte pattern).
 """
@@ -915,14 +916,14 @@ def run_static_unit(c2m, rows, base, tag):
 TIERS = {
     "quick": {
         "jobs": [("flat3", "CLayout_mc.cfg", 1, None, None), ("flat2", "CLayout_mc2.cfg", 1, None, None),
-                 ("nest", "CLayout_nest.cfg", 1, None, None), ("ld", "CLayout_ld.cfg", 1, None, None),
+                 ("nest", "CLayout_nest.cfg", 1, None, None), ("ld", "CLayout_ld.cfg", 1, None, None), ("anon", "CLayout_anon.cfg", 1, None, None),
                  ("sim", "CLayout_sim.cfg", 1, 1500, 60)],
-        "layout_engines": ["-ei"], "bv_engines": ["-ei", "-eg -O2"], "per_group": 3, "mem_sizes": 10, "per_mem": 1,
+        "layout_engines": ["-ei"], "bv_engines": ["-ei", "-eg -O2"], "per_group": 2, "mem_sizes": 10, "per_mem": 1,
         "probe": 3000, "static": 2000, "tlc_par": 3,
     },
     "thorough": {
         "jobs": [("flat3", "CLayout_mc.cfg", 1, None, None), ("flat2", "CLayout_mc2.cfg", 1, None, None),
-                 ("nest", "CLayout_nest.cfg", 1, None, None), ("ld", "CLayout_ld.cfg", 1, None, None),
+                 ("nest", "CLayout_nest.cfg", 1, None, None), ("ld", "CLayout_ld.cfg", 1, None, None), ("anon", "CLayout_anon.cfg", 1, None, None),
                  ("flat2w", "CLayout_t.cfg", 3, None, None), ("flat3m", "CLayout_t2.cfg", 3, None, None),
                  ("nestw", "CLayout_nest_t.cfg", 3, None, None), ("sim", "CLayout_sim.cfg", 2, 6000, 60)],
         "layout_engines": ["-ei", "-eg -O2"], "bv_engines": ["-ei", "-eg -O0", "-eg -O2"], "per_group": 12, "mem_sizes": 60,
